@@ -628,3 +628,74 @@ Example C01_step_chk_nonvacuous :
   op_live w (OAdd 0 1 (D 2 2 2 false [2%Z]) None None BNone) = false /\
   step_chk w (OAdd 0 1 (D 2 2 2 false [2%Z]) None None BNone) = (Err EModel, w).
 Proof. vm_compute. repeat split. Qed.
+
+(* ====================================================================================== *)
+(* Audit C01 F1 / C02 F3 (top-15 item 8): explicit node ids.
+   WHAT THE THEOREMS ABOVE MODEL: a node's node_id is identified with the node (its allocation index); [reg : list nat]
+   is the list of registered nodes; "node ids are unique" (C01_node_ids_unique, wf_reg + wf_nodup) therefore says "no node
+   is registered twice", and a registry that finds a DIFFERENT node under a key is not representable.  The public argument
+   `node_id=` is not an operation of Machine.v.
+   WHAT IS ADDED HERE (Mut/MachineNodeId.v, additive: a wrapper machine [step_k] over [step], like MachineLoad):
+   `add_child(data, node_id=z)` as the operation [KAddId]; a node's key is [KExp z] (explicit) or [KAuto n] (id(node));
+   ASSUMED: an explicit node_id never equals the address of a live node object of the same tree.
+     - C01_node_keys_unique: after ANY history of machine operations and explicit-id adds, the keys registered in one
+       tree are pairwise different;
+     - C01_find_by_key_exact: `_node_by_id.get(key)` finds n  iff  n is a node of the tree and carries that key;
+     - C01_add_id_refused: a node_id that is 0 or registered in the target tree is refused - with the assertion error
+       whenever the same call without node_id would succeed or fail with the uniqueness error - no tree changes;
+     - C01_add_id_ok: otherwise it is exactly add_child(data), the new node carries the key, other keys are untouched.
+   The refusal is `assert ... not in self._node_by_id` (tree.py:204): with `python -O` the library registers the duplicate
+   (count 1, two reachable nodes).  Tied to /repo (without -O) by the part NODEID of harness/props/C01.py
+   (harness/mut_c01_nid.py, Cases/CaseNodeId.v), which fails if that assertion is removed.
+   STILL NOT MODELLED: node_id= on the four shortcuts (forwarded to add_child), on add(node) (always ValueError), the
+   "node_id" key of from_dict items, non-int node ids; Tree._self_check asserts node_id == id(node) and so rejects every
+   tree that holds an explicit node id. *)
+From NT Require Import MachineNodeId.
+
+Theorem C01_node_keys_invariant : forall ops wk, WFk wk -> WFk (run_k ops wk).
+Proof. exact WFk_run_k. Qed.
+Print Assumptions C01_node_keys_invariant.
+
+Theorem C01_node_keys_unique : forall ops t, In t (trees (kbase (run_k ops empty_worldk))) ->
+  NoDup (map (nkey_of (kkeys (run_k ops empty_worldk))) (reg t)).
+Proof. exact keys_nodup_after_history. Qed.
+Print Assumptions C01_node_keys_unique.
+
+Theorem C01_find_by_key_exact : forall wk t key n, WFk wk -> In t (trees (kbase wk)) ->
+  (lk_key (kkeys wk) t key = Some n <-> In n (ids (forest_of t)) /\ nkey_of (kkeys wk) n = key).
+Proof. exact lk_key_exact. Qed.
+Print Assumptions C01_find_by_key_exact.
+
+Theorem C01_add_id_refused : forall wk ti p d e k b z t, get_tree (kbase wk) ti = Some t -> key_taken (kkeys wk) t z = true ->
+  exists x, fst (step_k wk (KAddId ti p d e k b z)) = Err x /\
+    trees (kbase (snd (step_k wk (KAddId ti p d e k b z)))) = trees (kbase wk) /\
+    kkeys (snd (step_k wk (KAddId ti p d e k b z))) = kkeys wk /\
+    (forall r, fst (step (kbase wk) (OAdd ti p d e k b)) = Ok r -> x = EAssert) /\
+    (fst (step (kbase wk) (OAdd ti p d e k b)) = Err EUnique -> x = EAssert).
+Proof. exact add_id_refused. Qed.
+Print Assumptions C01_add_id_refused.
+
+Theorem C01_add_id_ok : forall wk ti p d e k b z r wk', WFk wk -> step_k wk (KAddId ti p d e k b z) = (Ok r, wk') ->
+  exists t, get_tree (kbase wk) ti = Some t /\ key_taken (kkeys wk) t z = false /\
+    step (kbase wk) (OAdd ti p d e k b) = (Ok r, kbase wk') /\ r = [next (kbase wk)] /\
+    nkey_of (kkeys wk') (next (kbase wk)) = KExp z /\
+    forall m, m <> next (kbase wk) -> nkey_of (kkeys wk') m = nkey_of (kkeys wk) m.
+Proof. exact add_id_ok. Qed.
+Print Assumptions C01_add_id_ok.
+
+Theorem C01_other_ops_keep_keys : forall wk o, WFk wk -> kkeys (snd (step_k wk (KOp o))) = kkeys wk /\
+  forall n, next (kbase wk) <= n -> nkey_of (kkeys wk) n = KAuto n.
+Proof. exact base_op_keys. Qed.
+Print Assumptions C01_other_ops_keep_keys.
+
+Example C01_node_keys_nonvacuous :
+  let dd z := D z z z false [z] in
+  let wk := run_k [KOp (ONewTree false None); KAddId 0 0 (dd 1%Z) None None BNone 7; KOp (OAdd 0 0 (dd 2%Z) None None BNone)] empty_worldk in
+  map (fun t => map (nkey_of (kkeys wk)) (reg t)) (trees (kbase wk)) = [[KExp 7; KAuto 2]] /\
+  fst (step_k wk (KAddId 0 1 (dd 3%Z) None None BNone 7)) = Err EAssert /\
+  fst (step_k wk (KAddId 0 0 (dd 1%Z) None None BNone 7)) = Err EAssert /\
+  fst (step_k wk (KAddId 0 0 (dd 1%Z) None None BNone 8)) = Err EUnique /\
+  fst (step_k wk (KAddId 0 1 (dd 3%Z) None None BNone 0)) = Err EAssert /\
+  fst (step_k wk (KAddId 0 1 (dd 3%Z) None None BNone 8)) = Ok [3] /\
+  fst (step_k (snd (step_k wk (KOp (ORemove 0 1 false false)))) (KAddId 0 0 (dd 3%Z) None None BNone 7)) = Ok [3].
+Proof. vm_compute. repeat split. Qed.
